@@ -78,6 +78,14 @@ def run(ctx, broken):
     r.run([{"line": l, "tags": ["vs-model gates~%d" % g], "expect_proof": True} for l, g in zip(lines, sizes) if g <= 700])
     # (2) pool sizes, repeated runs, fresh processes (different hash seeds): bytes must be identical
     ref = run_bin(ctx.harness_bin(), lines, {"RAYON_NUM_THREADS": "1"})
+    # the same requests in reverse order and repeated within ONE process (process-global caches keyed too coarsely)
+    twice = run_bin(ctx.harness_bin(), list(reversed(lines)) + lines, {"RAYON_NUM_THREADS": "1"})
+    want = list(reversed(ref)) + ref
+    if twice != want:
+        k = next((i for i, (a, b) in enumerate(zip(twice, want)) if a != b), 0)
+        ctx.violation("impl:request-order", {"kind": "implementation-vs-property", "why": "the result of a compile+prove request depends on the "
+                      "requests the same process served before", "request": (list(reversed(lines)) + lines)[k][:400],
+                      "outputs": {"fresh": want[k][:300], "after-others": twice[k][:300] if k < len(twice) else "missing"}})
     pools = [2, 3, 4, 5, 8, 17] if ctx.tier == "quick" else [1, 2, 3, 4, 5, 6, 7, 8, 9, 10, 11, 12, 13, 14, 15, 16, 17, 32, 64]
     n_runs = 0
     dist = {}
